@@ -803,7 +803,7 @@ func (e *Engine) call(fi *fnInfo, st *State, in *ssa.Call) []*State {
 		// a small pure helper of the package (l.tmpl.enabled(), isTagOpen(c, next)): analysed like the lexer's own code
 		return e.callKnown(fi, st, in, callee)
 	}
-	if pi := e.bytePredicate(callee); pi.table != nil && pi.param < len(cc.Args) {
+	if pi := e.bytePredicateAt(callee, cc.Args); pi.table != nil && pi.param < len(cc.Args) {
 		// a pure predicate over one byte: treated like a [256]bool table indexed by the argument
 		arg := cc.Args[pi.param]
 		set := e.eval(st, arg).byteSet()
